@@ -115,6 +115,10 @@ let term_of (s : string) : terminal =
     TCollectInto (t, List.map z_of_string (split_on '/' old))
   | ["cnt"] -> TCount | ["fe"] -> TForEach
   | ["red"; o] -> TReduceT (redop_of o)
+  | ["sum"] -> TSum | ["min"] -> TMinT | ["max"] -> TMaxT
+  | ["fold"; id; o] -> TFold (z_of_string id, redop_of o)
+  | ["minby"] -> TMinBy | ["maxby"] -> TMaxBy
+  | ["minkey"; m] -> TMinKey (z_of_string m) | ["maxkey"; m] -> TMaxKey (z_of_string m)
   | "find" :: q -> TFind (filf_of q) | "findix" :: q -> TFindIx (filf_of q)
   | ["first"] -> TFirst | ["firstix"] -> TFirstIx
   | "any" :: q -> TAny (filf_of q) | "all" :: q -> TAll (filf_of q)
